@@ -339,6 +339,8 @@ fn run_case(ctx: &mut Ctx, case: &Value) -> Value {
         "img_ctor" => misc::img_ctor(case, &mut out),
         "split" => misc::split(case, &mut out),
         "rows" => misc::rows(case, &mut out),
+        "container" => misc::container(case, &mut out),
+        "filter_new" => misc::filter_new(case, &mut out),
         "fitcrop" => misc::fitcrop(case, &mut out),
         "coeffs" => misc::coeffs(case, &mut out),
         "alpha_table" => misc::alpha_table(ctx, case, &mut out),
